@@ -45,8 +45,36 @@ def _ival(ctx, v):
   return int(v)
 
 
-def pairs_case(n, ncons, same_length, alphabet=(-1, 1), budget=6):
+class _Rounds:
+  """bounds the sampler's number of retry rounds (the max_iter default of Constraints._pairs, 10 in the source) so that schedules in which
+  the sampler comes up short fit the draw budget; only the default value changes, the code is the real one"""
+  def __init__(self, rounds):
+    self.rounds = rounds
+
+  def __enter__(self):
+    from metric_learn.constraints import Constraints
+    import inspect
+    if self.rounds is None:
+      return
+    f = Constraints._pairs
+    self.f, self.old = f, f.__defaults__
+    names = [p.name for p in inspect.signature(f).parameters.values() if p.default is not inspect.Parameter.empty]
+    f.__defaults__ = tuple(self.rounds if nm == 'max_iter' else v for nm, v in zip(names, f.__defaults__))
+
+  def __exit__(self, *a):
+    if self.rounds is not None:
+      self.f.__defaults__ = self.old
+
+
+def pairs_case(n, ncons, same_length, alphabet=(-1, 1), budget=6, rounds=None):
   def fn(ctx):
+    with _Rounds(rounds):
+      return _pairs_body(ctx, n, ncons, same_length, alphabet, budget)
+  return fn
+
+
+def _pairs_body(ctx, n, ncons, same_length, alphabet, budget):
+  if True:
     from metric_learn.constraints import Constraints
     y = ctx.integer('y', alphabet[0], alphabet[1], n)
     # quantifier: at least one constraint of each requested kind exists
@@ -58,7 +86,16 @@ def pairs_case(n, ncons, same_length, alphabet=(-1, 1), budget=6):
     c = Constraints(y)
     with warnings.catch_warnings(record=True) as rec:
       warnings.simplefilter('always')
-      a, b, cc, d = c.positive_negative_pairs(ncons, same_length=same_length, random_state=rng)
+      try:
+        a, b, cc, d = c.positive_negative_pairs(ncons, same_length=same_length, random_state=rng)
+      except ValueError as e:
+        if 'unpack' in str(e):
+          # the schedule in which every draw of one kind fails (empty result cannot be unpacked): outside the quantifier, see OUTSIDE
+          if ctx.symbolic:
+            raise core.PathAbort()
+          from symx.harness import Reject
+          raise Reject()
+        raise
     warned_pos = any('positive constraints' in str(w.message) for w in rec)
     warned_neg = any('negative constraints' in str(w.message) for w in rec)
     a, b, cc, d = [list(map(int, v)) for v in (a, b, cc, d)]
@@ -89,7 +126,6 @@ def pairs_case(n, ncons, same_length, alphabet=(-1, 1), budget=6):
       r2 = Constraints(y).positive_negative_pairs(ncons, same_length=same_length, random_state=rng2)
     same = all(list(map(int, u)) == v for u, v in zip(r2, (a, b, cc, d)))
     ctx.require('same_draws_same_constraints', ctx.cond(same))
-  return fn
 
 
 def one_kind_case(n, ncons, same_label, alphabet=(-1, 1), budget=5):
@@ -249,6 +285,18 @@ def cases(tier, seed):
                     '%d points, labels arbitrary in {-1,0,1}, n_constraints=%d, same_length=%s, every RNG schedule with <= %d non-trivial draws'
                     % (n, nc, sl, budget), tiers=tiers, cost=30 if n == 4 else 8, max_paths=400000, validate=20,
                     hard_timeout_s=3000))
+  # sampler limited to one / two retry rounds: schedules where duplicates leave one kind short of the other fit the draw budget
+  for n, nc, rounds, tiers, budget in [(3, 2, 1, Q, 8), (4, 2, 1, T, 8), (3, 3, 1, T, 12), (3, 2, 2, T, 12)]:
+    out.append(case('pairs_short_n%d_c%d_r%d_same' % (n, nc, rounds), pairs_case(n, nc, True, budget=budget, rounds=rounds), FUNCS,
+                    '%d points, labels arbitrary in {-1,0,1}, n_constraints=%d, same_length=True, the sampler limited to %d retry round(s) (source default 10), '
+                    'every RNG schedule with <= %d non-trivial draws' % (n, nc, rounds, budget), tiers=tiers, cost=20, max_paths=400000, validate=20, hard_timeout_s=3000))
+  # several distinct negative (unknown) labels
+  out.append(case('pairs_n3_c1_free_two_unknown_labels', pairs_case(3, 1, False, alphabet=(-2, 1), budget=6), FUNCS,
+                  '3 points, labels arbitrary in {-2,-1,0,1}, n_constraints=1', tiers=Q, cost=8, max_paths=400000, validate=20))
+  out.append(case('chunks_n4_k1_s2_two_unknown_labels', chunks_case(4, 1, 2, alphabet=(-2, 1)), FUNCS,
+                  '4 points, labels arbitrary in {-2,-1,0,1} (two distinct unknown markers), n_chunks=1, chunk_size=2', tiers=Q, cost=10, max_paths=400000, validate=20))
+  out.append(case('chunks_n5_k2_s2_two_unknown_labels', chunks_case(5, 2, 2, alphabet=(-2, 1)), FUNCS,
+                  '5 points, labels arbitrary in {-2,-1,0,1}, n_chunks=2, chunk_size=2', tiers=T, cost=40, max_paths=400000, validate=20, hard_timeout_s=3000))
   for n, nc, tiers in [(3, 1, Q), (3, 2, Q), (4, 1, Q), (4, 2, T), (5, 1, T)]:
     for sl in (True, False):
       out.append(case('%s_only_n%d_c%d' % ('pos' if sl else 'neg', n, nc), one_kind_case(n, nc, sl), FUNCS,
@@ -259,8 +307,8 @@ def cases(tier, seed):
     out.append(case('chunks_n%d_k%d_s%d' % (n, k, cs), chunks_case(n, k, cs), FUNCS,
                     '%d points, labels arbitrary in {-1,0,1}, n_chunks=%d, chunk_size=%d, every RNG schedule with <= 8 non-trivial draws' % (n, k, cs),
                     tiers=tiers, cost=10 if n < 6 else 40, max_paths=400000, validate=20, hard_timeout_s=3000))
-  quick_vecs = [(0, 0, 1, 1), (0, 1, 0, 1), (-1, 0, 0, 1, 1), (0, -1, 1, 0, 1), (1, 0, 0, -1, 1)]
-  allv = _label_vectors(4, (-1, 0, 1)) + _label_vectors(5, (-1, 0, 1))
+  quick_vecs = [(0, 0, 1, 1), (0, 1, 0, 1), (-1, 0, 0, 1, 1), (0, -1, 1, 0, 1), (1, 0, 0, -1, 1), (-2, 0, 1, 0, 1), (0, -1, 1, -2, 0, 1)]
+  allv = _label_vectors(4, (-1, 0, 1)) + _label_vectors(5, (-1, 0, 1)) + [(-2, 0, 1, 0, 1), (0, -1, 1, -2, 0, 1), (-2, -2, 0, 0, 1, 1)]
   for v in allv:
     for kg, ki in ((1, 1), (2, 1), (1, 2), (2, 2)):
       quick = v in quick_vecs and (kg, ki) in ((1, 1), (2, 2))
@@ -281,7 +329,7 @@ LEVEL = ('Bounded symbolic execution of the real Constraints methods: label vect
 ASSUME = ['RNG = nondeterministic stub subclassing RandomState (every draw forks over its range); schedules needing more draws than the stated budget are pruned',
           'NearestNeighbors replaced by its specification (any order by non-decreasing distance, self excluded when X is None)',
           'np.unique on symbolic labels by fork-sorting']
-OUTSIDE = ['more than 6 points, label alphabets beyond {-1,0,1}', 'rejection-sampling schedules longer than the draw budget',
+OUTSIDE = ['more than 6 points, label alphabets beyond {-2,-1,0,1}', 'rejection-sampling schedules longer than the draw budget',
            'the RNG schedule in which every draw fails (unpacking error on an empty result) is outside the quantifier "at least one constraint exists"',
            'points in dimension > 1 for the neighbour search']
 
